@@ -28,7 +28,7 @@ RULE = ("one scenario per history (sequence of define/validate operations follow
         "distinct by construction")
 ASSUMPTIONS = [
     "the reported canonical state is the owned-pattern map of the StructuredRecord subclasses; verdicts do not rely on it",
-    "fresh-interpreter answers (first query in a new process) are the reference; no hand-written expected values",
+    "fresh-interpreter answers (each witness typed first, in its own fork of a new process) are the reference; no hand-written expected values",
     "every history is executed in its own forked copy of a process that has never typed anything (no reset function is trusted)",
 ]
 DYNAMIC = ["dyn-child-of-YTKEntry", "dyn-typed-child", "dyn-same-name-YTKPart1", "dyn-generic-BsaI-module",
@@ -39,12 +39,13 @@ def bounds(tier):
     return dict(classes="all concrete kit classes + {} dynamically defined classes".format(len(DYNAMIC)),
                 histories=("all ordered pairs (validate A; query B); define interleaved before / between / after" if tier == "quick"
                            else "all ordered pairs + all ordered triples (validate A; validate B; query C) inside each kit family"),
-                witnesses="own instance, own instance rotated so that the match wraps, instances of every class of the same kit")
+                witnesses="own instance, own instance rotated so that the match wraps, a long look-alike pair (clean / one extra cutter site in the middle), instances of every class of the same kit",
+                look_alike_priming="every class with the same cutter and kind types its long clean / long illegal instance before the query")
 
 
 def goals(tier):
     return ["parent-before-child", "child-before-parent", "generic-entry-before-typed-part", "define-after-parent-primed",
-            "same-name-class", "accepting-and-rejecting-answers"]
+            "same-name-class", "accepting-and-rejecting-answers", "look-alike-record-typed-first"]
 
 
 # ---------------------------------------------------------------------------------------------
@@ -104,11 +105,30 @@ def own_instance(cls, name):
     return _inst[name]
 
 
+_long = {}
+
+
+def long_instance(cls, name, illegal):
+    """instance of the class structure whose wildcard run is a 96-letter word; `illegal` puts one more cutter site in its middle
+    (both spellings share their first 60 and last letters: look-alikes for anything that compares or caches by prefix)"""
+    key = (name, illegal)
+    if key not in _long:
+        g = gen.geometry_of(cls.cutter)
+        forbid = ["GGTCTC", "CGTCTC", "GAAGAC", g.site]
+        w = gen.long_word(96, seed=5, forbid=forbid)
+        if illegal:
+            w = w[:66] + g.site + w[66 + len(g.site):]
+        text, _ = gen.instantiate(cls.structure(), fill_scheme=0, star_text=w, forbid=forbid)
+        _long[key] = text + gen.word(1, 50, 6, forbid)
+    return _long[key]
+
+
 def witnesses(name, cls):
     """list of (witness id, sequence)"""
     own = own_instance(cls, name)
     n = len(own)
-    out = [("own", own), ("own-wrapped", rm.rot_right(own, n // 2))]
+    out = [("own", own), ("own-wrapped", rm.rot_right(own, n // 2)),
+           ("own-long", long_instance(cls, name, False)), ("own-long-extra-site", long_instance(cls, name, True))]
     fam = family(name)
     for other in gen.kit_classes():
         if other.__module__ == fam or (fam.endswith("plant") and other.__module__.endswith("moclo")) or \
@@ -133,8 +153,9 @@ def answers(cls, wits):
     return out
 
 
-def validate(cls, name):
-    e = cls(CircularRecord(Seq(own_instance(cls, name)), id="p"))
+def validate(cls, name, which="own"):
+    s = own_instance(cls, name) if which == "own" else long_instance(cls, name, which == "long-illegal")
+    e = cls(CircularRecord(Seq(s), id="p"))
     if e.is_valid():
         e.overhang_start()
 
@@ -204,6 +225,17 @@ def histories_for(b, tier):
             hs.append([("define", a), ("validate", a)])
         else:
             hs.append([("validate", a)])
+    # look-alike priming: a class with the same cutter and kind types a long record (clean / with an extra site) first
+    try:
+        cb = gen.class_by_name(b)
+    except KeyError:
+        cb = None
+    if cb is not None:
+        for a in kit_names():
+            ca = gen.class_by_name(a)
+            if ca.cutter is cb.cutter and gen.is_vector_class(ca) == gen.is_vector_class(cb) and ca.structure() == cb.structure():
+                hs.append([("validate-long", a)])
+                hs.append([("validate-long-illegal", a)])
     if b.startswith("dyn-"):
         # define interleaved: after the other class was primed (define-after) and before (define-before)
         out = []
@@ -224,8 +256,10 @@ def _history_body(hist, b):
     for op, x in hist:
         if op == "define":
             dyn[x] = define(x)
-        else:
+        elif op == "validate":
             validate(resolve(x, dyn), x)
+        else:
+            validate(resolve(x, dyn), x, which="long" if op == "validate-long" else "long-illegal")
         states.append(cache_state())
     cls = resolve(b, dyn)
     wits = witnesses(b, cls)
@@ -290,7 +324,9 @@ def run_unit(unit, st, tier):
             for s in states:
                 seen_states.add(s)
             st.scenario("history-len-%d" % len(hist), None, calls=len(hist) + len(got))
-            others = [x for op, x in hist if op == "validate" and x != b]
+            if any(op.startswith("validate-long") for op, x in hist):
+                st.goal("look-alike-record-typed-first")
+            others = [x for op, x in hist if op.startswith("validate") and (x != b or op != "validate")]
             if others:
                 st.nontrivial += 1
                 a = others[0]
@@ -336,4 +372,10 @@ if __name__ == "__main__":
     if name.startswith("dyn-"):
         dyn[name] = define(name)
     cls = resolve(name, dyn)
-    print(json.dumps(answers(cls, witnesses(name, cls))))
+    # every witness is typed in its own forked copy of this (never typing) process: the reference answer for a witness
+    # must not depend on the witnesses typed before it either
+    from mcv.engine import isolated
+    out = {}
+    for wid, s in witnesses(name, cls):
+        out.update(isolated(answers, cls, [(wid, s)]))
+    print(json.dumps(out))
